@@ -38,34 +38,34 @@ Ranges == { <<-1, 1>>, <<0, 1>>, <<-2, -1>>, <<0, 0>>, <<-1, 0>> }
 TrSet == { Tr(<<0,0,0>>, <<0,1,0, -1,0,0, 0,0,1>>), Tr(<<1,0,0>>, IdM), Tr(<<0,0,0>>, <<-1,0,0, 0,-1,0, 0,0,1>>),
            Tr(<<0,1,0>>, <<0,0,1, 1,0,0, 0,1,0>>) }
 
-VARIABLES pc, base, c0, first, ranges, arr, ftr, ctr, latopt, flip
-vars == <<pc, base, c0, first, ranges, arr, ftr, ctr, latopt, flip>>
+VARIABLES pc, base, c0, first, ranges, arr, ftr, ctr, latopt, flip, compl
+vars == <<pc, base, c0, first, ranges, arr, ftr, ctr, latopt, flip, compl>>
 Init == /\ pc = "cell" /\ base = << <<2,0,0>> >> /\ c0 = <<0,0,0>> /\ first = <<1>> /\ ranges = <<>>
         /\ arr = <<>> /\ ftr = [has |-> FALSE, tr |-> NoTr] /\ ctr = [has |-> FALSE, tr |-> NoTr] /\ latopt = FALSE
-        /\ flip = <<>>
+        /\ flip = <<>> /\ compl = FALSE
 
 (* first[d] = 1: the plane through c0 + a_d/2 is listed first; -1: the other one. *)
 (* One small choice per step (TLC -simulate enumerates all successors of a step).  *)
 Cell == /\ pc = "cell"
         /\ \E b \in Bases, c \in C0s : base' = b /\ c0' = c
         /\ first' = <<>> /\ ranges' = <<>> /\ arr' = <<>> /\ flip' = <<>> /\ pc' = "orient"
-        /\ UNCHANGED <<ftr, ctr, latopt>>
+        /\ UNCHANGED <<ftr, ctr, latopt, compl>>
 Orient == /\ pc = "orient" /\ Len(first) < Len(base)
           /\ \E f \in {-1, 1}, r \in Ranges, g \in {<<1, 1>>, <<1, -1>>, <<-1, 1>>} :
                 first' = Append(first, f) /\ ranges' = Append(ranges, r) /\ flip' = Append(flip, g)
-          /\ UNCHANGED <<pc, base, c0, arr, ftr, ctr, latopt>>
+          /\ UNCHANGED <<pc, base, c0, arr, ftr, ctr, latopt, compl>>
 Trs == /\ pc = "orient" /\ Len(first) = Len(base)
        /\ \E ft \in { [has |-> FALSE, tr |-> NoTr] } \cup { [has |-> TRUE, tr |-> t] : t \in TrSet },
              ct \in { [has |-> FALSE, tr |-> NoTr] } \cup { [has |-> TRUE, tr |-> t] : t \in TrSet },
-             lo \in BOOLEAN :
-            ftr' = ft /\ ctr' = ct /\ latopt' = lo
+             lo \in BOOLEAN, cp \in BOOLEAN :
+            ftr' = ft /\ ctr' = ct /\ latopt' = lo /\ compl' = cp
        /\ pc' = "fill" /\ UNCHANGED <<base, c0, first, ranges, arr, flip>>
 Size == LET RECURSIVE Pr(_) Pr(d) == IF d = 0 THEN 1 ELSE (ranges[d][2] - ranges[d][1] + 1) * Pr(d - 1) IN Pr(Len(ranges))
 Fill == /\ pc = "fill" /\ Len(arr) < Size
         /\ \E u \in IF latopt THEN (IF arr = <<>> THEN {2, 3} ELSE {arr[1]}) ELSE {0, 1, 2, 3} : arr' = Append(arr, u)
-        /\ UNCHANGED <<pc, base, c0, first, ranges, ftr, ctr, latopt, flip>>
+        /\ UNCHANGED <<pc, base, c0, first, ranges, ftr, ctr, latopt, flip, compl>>
 Done == /\ pc = "fill" /\ Len(arr) = Size /\ pc' = "emit"
-        /\ UNCHANGED <<base, c0, first, ranges, arr, ftr, ctr, latopt, flip>>
+        /\ UNCHANGED <<base, c0, first, ranges, arr, ftr, ctr, latopt, flip, compl>>
 
 (* the planes: surface number 100 + 2d-1 through c0 + a_d/2, 100 + 2d through c0 - a_d/2 *)
 N == Normals(base)
@@ -106,9 +106,12 @@ Deck ==
       u2 == << PlainCell(21, <<"*", S(-21), S(-22)>>, 2, 1), PlainCell(22, <<"C", 21>>, 2, 2) >>
       u3 == << PlainCell(31, S(-23), 3, 2), PlainCell(32, S(23), 3, 0) >>
       planes == [i \in 1..(2 * Len(base)) |-> PlaneCard((i + 1) \div 2, IF i % 2 = 1 THEN 1 ELSE -1)]
-  IN [cells |-> world \o <<lc>> \o u2 \o u3,
+      (* the pattern of the integration deck lattice_complement: a cell "#lattice" in the lattice's universe; *)
+      (* the lattice fills its whole universe, so that cell is never reached (convention 7)                  *)
+      cc == IF compl THEN << PlainCell(11, <<"C", 10>>, 1, 1) >> ELSE <<>>
+  IN [cells |-> world \o <<lc>> \o cc \o u2 \o u3,
       surfs |-> << Card(1, "so", <<6>>), Card(21, "px", <<0>>), Card(22, "py", <<0>>), Card(23, "pz", <<0>>) >> \o planes]
 Emit == pc = "emit" /\ PrintT(ToJson(Deck)) /\ pc' = "done"
-        /\ UNCHANGED <<base, c0, first, ranges, arr, ftr, ctr, latopt, flip>>
+        /\ UNCHANGED <<base, c0, first, ranges, arr, ftr, ctr, latopt, flip, compl>>
 Next == Cell \/ Orient \/ Trs \/ Fill \/ Done \/ Emit
 =============================================================================
